@@ -278,6 +278,24 @@ theorem main_dispatch_file {ζ τ : Type} (E : GoTie.MainEnv ζ τ) (ap : Bytes 
           if (c.1 != none) = true then .error (.panic 1014) else pure c.2) :=
   GoTie.main_dispatch_file E ap a hfc hArg hSet hFd hIsT hAP hout hnot t0
 
+/-- binary output is not sent to a terminal (site 13), before any mode function is called -/
+theorem main_binaryToTerminal {ζ τ : Type} (E : GoTie.MainEnv ζ τ) (ap : Bytes → Bytes) (a : Cli.Args) (hfc : Cli.flagCheck a = none)
+    (hArg : ∀ t, E.Arg 0 t = .ok ([], t)) (hSet : ∀ b t, E.SetStdin b t = .ok t) (hFd : ∀ z t, E.Fd z t = .ok (0, t))
+    (hIsT : ∀ n t, E.IsT n t = .ok (true, t)) (hAP : E.AP = GoTie.main_pureAP ap)
+    (hout : a.output = []) (hd : a.decrypt = false) (harm : a.armor = false) (t0 : τ) :
+    E.run a.output a.decrypt a.encrypt a.passphrase a.armor a.recipients a.recipientsFiles (a.identities.map GoTie.main_toFlag) t0 =
+      .error (.panic 1013) :=
+  GoTie.main_binaryToTerminal E ap a hfc hArg hSet hFd hIsT hAP hout hd harm t0
+
+/-- an input file that cannot be opened ends the process (site 10) before the output is looked at -/
+theorem main_openInput {ζ τ : Type} (E : GoTie.MainEnv ζ τ) (ap : Bytes → Bytes) (a : Cli.Args) (hfc : Cli.flagCheck a = none)
+    (inputName : Bytes) (hname : inputName ≠ [] ∧ inputName ≠ [45]) (hArg : ∀ t, E.Arg 0 t = .ok (inputName, t))
+    (f : ζ) (e : Go.Err) (hOpen : ∀ n t, E.Open n t = .ok (f, some e, t)) (hAP : E.AP = GoTie.main_pureAP ap)
+    (hNL : E.NL = fun _ _ => .error (.panic 77)) (hFd : E.Fd = fun _ _ => .error (.panic 78)) (t0 : τ) :
+    E.run a.output a.decrypt a.encrypt a.passphrase a.armor a.recipients a.recipientsFiles (a.identities.map GoTie.main_toFlag) t0 =
+      .error (.panic 1010) :=
+  GoTie.main_openInput E ap a hfc inputName hname hArg f e hOpen hAP hNL hFd t0
+
 /-! ### The pieces fit together
 
 The abstract callee of one translated function, instantiated with the TRANSLATED definition of the
